@@ -20,7 +20,9 @@ EXPLANATION = (
     "pref*num/denom unchanged and afterwards occupied energies added, virtual subtracted; signs that no factor -1 can fix are "
     "refused; Term.sign table. R13b: permute_num, Term.symmetrize and derivative compute 1/(n+1) (x + sum_P f_P P x) over exactly the "
     "operations with a factor (only contracted indices, given eri symmetry forwarded); denom_eri_sym decision table (P D = D keeps "
-    "the factor, P D = -D negates it, otherwise None; instance untouched). R13c: D^(U)_(L) (SymmetricTensor, bra-ket symmetry -1) "
+    "the factor, P D = -D negates it, otherwise None; instance untouched); denom_eri_sym and permute_num evaluated together on "
+    "terms with and without denominator, with and without a given remainder symmetry, the remainder carrying target indices, both "
+    "values of only_contracted: the numerator is only symmetrised with operations on contracted indices. R13c: D^(U)_(L) (SymmetricTensor, bra-ket symmetry -1) "
     "stands for 1/(sum e_U - sum e_L): symbolic_denominator(brackets) = 1/denominator and Obj.use_explicit_denominators(D**n) = "
     "(sum e_U - sum e_L)**(-n) under that meaning (both directions against the same interpretation), registration / "
     "de-registration of the name, brackets with coefficients other than +-1 refused, Term/Expr.use_symbolic_denominators rebuild "
@@ -601,6 +603,91 @@ def _sx_derivative(ctx, rule, fnref):
                    f"1/({n}+1) / an operation is applied without its factor", key=f"{lab} {name} normalisation")
 
 
+def _remainder_symmetry(w, only_contracted):
+    """Model of Term.symmetry for the remainder Z^{ij}_{ab} (antisymmetric) with the targets i, j and the contracted
+    a, b: all operations, or those that permute contracted indices only."""
+    full = [(_pairs(w, "ij"), -1), (_pairs(w, "ab"), -1), (_pairs(w, "ij", "ab"), 1)]
+    return [x for x in full if not only_contracted or x[0] == _pairs(w, "ab")]
+
+
+def _sx_common_symmetry(ctx, rule):
+    """denom_eri_sym / permute_num evaluated together (nothing in between hooked) on terms with and without
+    denominator, with and without a given remainder symmetry, the remainder carrying target indices: the numerator
+    may only be symmetrised with operations on contracted indices that leave remainder * denominator invariant."""
+    Z = tensor("AntiSymmetricTensor", "Z", ("i", "j"), ("a", "b"), 0)
+    st = {}
+    dens = {"no denominator": 1, "invariant denominator": B(**B1), "denominator without the symmetry": B(i=1, a=-1),
+            "squared denominator": T("pow", B(**B1), 2)}
+
+    def world():
+        w = World(IDX)
+        w.extra_hooks["factor_and_remove_number"] = lambda sx, a, kw, w=w: _far_model(w, sx, a, kw)
+
+        def symh(sx, a, kw, w=w):
+            st.setdefault("flags", []).append((kw.get("only_contracted", False), kw.get("only_target", False)))
+            return dict(_remainder_symmetry(w, kw.get("only_contracted", False) is True))
+        w.extra_hooks["symmetry"] = symh
+        return w
+
+    def common(w, den, ops):
+        out = []
+        for perms, f in ops:
+            m = permutation_map(w, perms)
+            pd = substitute(norm(den), m)
+            out.append((perms, f if same_value(pd, den) else -f if same_value(pd, t_mul(-1, den)) else None))
+        return out
+    # -- denom_eri_sym called the way a caller writes it: eri_sym=None, only_contracted as keyword
+    fn = ctx.model.fn(EOd + "denom_eri_sym")
+    for dname, den in dens.items():
+        for oc in (True, False):
+            w = world()
+            sx = w.make(ctx, "denom_eri_sym")
+
+            def args(den=den, oc=oc):
+                st["flags"] = []
+                st["me"] = eo_self(w, 1, B(i=1, a=-1), norm(den), Z)
+                st["me"].attrs["_eri"] = w.terms_of(w.expr(Z, target_idx=w.idx("i", "j")))[0]
+                return sx.bind(fn, [st["me"]], {"eri_sym": None, "only_contracted": oc})
+            what = f"denom_eri_sym[{dname}, only_contracted={oc}, symmetry on the fly]"
+            for o in returned(ctx, rule, fn, sx.run(fn, args), what, what):
+                exp = dict(common(w, den, _remainder_symmetry(w, oc)))
+                got = o.value if isinstance(o.value, dict) else None
+                tgt = got is not None and any(raw_name(x) in ("i", "j") for perms in got for pq in perms for x in pq)
+                ctx.check(rule, fn, got == exp and not (oc and tgt),
+                          f"{what}: the symmetry of the remainder is determined with the requested restriction",
+                          f"{what}: returns {fmt(got)}, expected {fmt(exp)}" +
+                          ("; operations on the target indices i, j are returned although only contracted indices were requested "
+                           "(the flag does not reach Term.symmetry on this path)" if oc and tgt else ""), key=what)
+    # -- permute_num on top of it
+    fn = ctx.model.fn(EOd + "permute_num")
+    for dname, den in dens.items():
+        for given in (False, True):
+            w = world()
+            sx = w.make(ctx, "permute_num")
+            numc = dict(i=1, a=-1)
+
+            def args(den=den, given=given):
+                st["flags"] = []
+                st["me"] = eo_self(w, Fraction(1, 2), lin(numc), norm(den), Z)
+                st["me"].attrs["_eri"] = w.terms_of(w.expr(Z, target_idx=w.idx("i", "j")))[0]
+                return dict(self=st["me"], eri_sym=dict(_remainder_symmetry(w, True)) if given else None)
+            what = f"permute_num[{dname}, {'given' if given else 'no'} remainder symmetry, targets i j]"
+            for o in returned(ctx, rule, fn, sx.run(fn, args), what, what):
+                me = st["me"]
+                ops = common(w, den, _remainder_symmetry(w, True))
+                want = t_mul(Fraction(1, 2), _symmetrised(lin(numc), ops))
+                got = norm(t_mul(me.attrs["_pref"], raw(me.attrs["_num"])))
+                vcheck(ctx, rule, fn, got, want,
+                       f"{what}: numerator symmetrised with the operations on contracted indices that leave remainder*denominator invariant",
+                       f"{what}: pref*num becomes {fmt(got)}; expected {fmt(norm(want))}: only permutations of contracted indices "
+                       "common to remainder and denominator may act on the numerator (a permutation of the target indices i, j changes "
+                       "the value of the term)", key=what)
+                lf = linear_form(raw(me.attrs["_num"]))
+                ctx.check(rule, fn, lf is None or "j" not in lf, f"{what}: no orbital energy of the other target index appears",
+                          f"{what}: the numerator {fmt(me.attrs['_num'])} contains e_j: a permutation of target indices was applied",
+                          key=what + " targets")
+
+
 _SYMMETRISERS = {EOd + "permute_num": _sx_permute_num, EC + "Term.symmetrize": _sx_symmetrize,
                  "derivative:derivative": _sx_derivative}
 
@@ -617,6 +704,7 @@ def r13b(ctx):
     rule = "R13b"
     for ref in _SYMMETRISERS:
         symmetriser_normalisation(ctx, rule, ref)
+    _sx_common_symmetry(ctx, rule)
     # common symmetry of remainder and denominator
     fn = ctx.model.fn(EOd + "denom_eri_sym")
     st = {}
@@ -637,7 +725,7 @@ def r13b(ctx):
         def args(den=den, mk=mk):
             st["me"] = eo_self(w, 1, B(i=1, a=-1), den, ERI)
             st["sym"] = mk(w)
-            return dict(self=st["me"], eri_sym=dict(st["sym"]), kwargs={})
+            return sx.bind(fn, [st["me"]], {"eri_sym": dict(st["sym"])})
         what = f"denom_eri_sym[{name}]"
         for o in returned(ctx, rule, fn, sx.run(fn, args), what, f"denom_eri_sym {name}"):
             exp = dict(zip([p for p, _ in st["sym"]], want(st["sym"])))
@@ -655,7 +743,7 @@ def r13b(ctx):
 
         def args(given=given):
             st["me"] = eo_self(w, 1, B(i=1, a=-1), 1, ERI)
-            return dict(self=st["me"], eri_sym={"given": 1} if given else None, kwargs={"only_contracted": True})
+            return sx.bind(fn, [st["me"]], {"eri_sym": {"given": 1} if given else None, "only_contracted": True})
         for o in returned(ctx, rule, fn, sx.run(fn, args), f"denom_eri_sym[number, {name}]", f"denom_eri_sym number {name}"):
             kw = st.get("kw") or {}
             ok = o.value == ({"given": 1} if given else {"marker": 1}) and \
